@@ -135,6 +135,10 @@ def analyse(W: int, mf: int, res: Dict[str, Any], out: Outcome, want: str) -> Di
         shutdown_sig = any(e[0] == "sig" and e[1] in ("TERM", "INT") for e in tr)
         all_dies = sum(1 for e in tr if e[0] == "die")
         justified = shutdown_sig or res["status"] != "returned" or (mf >= 1 and all_dies >= mf)
+        if res["status"] == "raised" and not shutdown_sig:
+            # start() died with an exception although nobody asked the manager to stop: from here on nothing supervises the workers
+            out.add("C17.c", f"the manager stopped supervising: start() raised {res.get('exc')} in tick {end_tick} without any shutdown request "
+                             f"(signals delivered: {[e[1] for e in tr if e[0] == 'sig'][:6]}); workers that die from now on are never replaced")
         for (t, slot, pid) in deaths:
             if end_tick is not None and end_tick <= t + 2:
                 if not justified and res.get("ret") is not None:
